@@ -49,17 +49,8 @@ def parseMembersDc (s : String) : Option (List (Nat × Nat × Nat)) :=
 def parseMembers (s : String) : Option (List (Nat × Nat)) :=
   (parseMembersDc s).map (·.map (fun m => (m.1, m.2.1)))
 
-def insertNat (x : Nat) : List Nat → List Nat
-  | [] => [x]
-  | y :: ys => if x < y then x :: y :: ys else if x = y then y :: ys else y :: insertNat x ys
-
-/-- The data-centre map `watch_membership_changes` hands to the selector: `BTreeMap<dc, Vec<addr>>`, members pushed in node-id
-order (the local node included). -/
-def layoutOf (ms : List (Nat × Nat × Nat)) : List (Nat × List Nat) :=
-  let sorted := Membership.sortMembers (ms.map (fun m => (m.1, m.2.1)))    -- by id
-  let dcOf := fun (id : Nat) => ((ms.find? (·.1 == id)).map (·.2.2)).getD 0
-  let dcs := (ms.map (·.2.2)).foldr insertNat []
-  dcs.map (fun d => (d, (sorted.filter (fun m => dcOf m.1 == d)).map (·.2)))
+/-- The data-centre map `watch_membership_changes` hands to the selector (`Selector.dcLayout`). -/
+def layoutOf (ms : List (Nat × Nat × Nat)) : List (Nat × List Nat) := Selector.dcLayout ms
 
 def fmtNats (l : List Nat) : String := if l.isEmpty then "-" else ",".intercalate (l.map toString)
 
